@@ -1102,5 +1102,56 @@ theorem lookup_of_pairwise {β : Type} : ∀ (varied : List (Nat × β)) (kv : N
       have : (kv.1 == p.1) = false := by simpa using hne
       simp [List.lookup, this, lookup_of_pairwise rest kv hpw'.2 hin]
 
+/-! ### round 7: activity product, several reactions, 2-d concentrations -/
+
+theorem equilibriumResidualWith_ok (act : List α → Except Err α) (rc : α) (c0 : List α) (stoich : List Int) (K v : α)
+    (h : equilibriumResidualWith act rc c0 stoich K = .ok v) :
+    c0.length = stoich.length ∧ ∃ g, act (extentState c0 stoich rc) = .ok g ∧
+      v = K - quotient (extentState c0 stoich rc) stoich * g := by
+  unfold equilibriumResidualWith at h
+  split_ifs at h with hl
+  simp only [bind, Except.bind] at h
+  split at h
+  · cases h
+  · rename_i q hq
+    split at h
+    · cases h
+    · rename_i g hg
+      simp only [pure, Except.pure, Except.ok.injEq] at h
+      exact ⟨not_not.mp hl, g, hg, by rw [← h, eqQuotient_ok _ _ _ hq]⟩
+
+theorem equilibriumResidualMulti_ok (rc c0 : List α) (stoich : List (List Int)) (K vs : List α)
+    (h : equilibriumResidualMulti rc c0 stoich K = .ok vs) :
+    c0.length = stoich.length ∧ K.length = rc.length ∧ vs.length = rc.length ∧
+    ∀ r (hr : r < rc.length) (hk : r < K.length) (hv : r < vs.length),
+      vs[r] = K[r] - quotient (extentStateMulti c0 stoich rc) (stoichColumn stoich r) := by
+  unfold equilibriumResidualMulti at h
+  split_ifs at h with hbad
+  have hbad' := not_or.mp hbad
+  have hbad'' := not_or.mp hbad'.2
+  have hc : c0.length = stoich.length := not_not.mp hbad'.1
+  have hK : K.length = rc.length := not_not.mp hbad''.2
+  have hf := mapM_ok _ _ h
+  have hlen := hf.length_eq
+  simp only [List.length_zip, List.length_range, hK, Nat.min_self] at hlen
+  refine ⟨hc, hK, hlen.symm, ?_⟩
+  intro r hr hk hv
+  have := (List.forall₂_iff_get.mp hf).2 r (by simp [hK, hr]) hv
+  simp only [List.get_eq_getElem, List.getElem_zip, List.getElem_range, bind, Except.bind] at this
+  split at this
+  · cases this
+  · rename_i q hq
+    simp only [pure, Except.pure, Except.ok.injEq] at this
+    rw [← this, eqQuotient_ok _ _ _ hq]
+
+theorem eqQuotientRows_ok (concs : List (List α)) (stoich : List Int) (qs : List α)
+    (h : eqQuotientRows concs stoich = .ok qs) :
+    qs.length = concs.length ∧ ∀ i (hi : i < concs.length) (hq : i < qs.length), qs[i] = quotient concs[i] stoich := by
+  have hf := mapM_ok _ _ h
+  refine ⟨hf.length_eq.symm, fun i hi hq => ?_⟩
+  have := (List.forall₂_iff_get.mp hf).2 i hi hq
+  simp only [List.get_eq_getElem] at this
+  exact eqQuotient_ok _ _ _ this
+
 end ChemModel.EqSolve
 
